@@ -246,12 +246,24 @@ ANCHORS = [    # first jobs of every run: the two witnesses of KF-DWVW-TAIL-CALL
 ]
 
 
+# byte streams (RAW) whose real bits END IN ZEROS right where the decoder looks for a delta-width modifier: the zero run reaches 1..n bits into the
+# padding shifted in behind the file, which is exactly what the end test `bit_count < pad_bits` has to notice (a count of padding bits that is off
+# by one decodes one junk frame more or one frame fewer): (index into FORMATS, hex)
+TAIL_STREAMS = [(4, "ff80"), (4, "ff00"), (4, "fffe"), (4, "ffc0"), (4, "ff8000"), (5, "fff800"), (5, "fff000"), (5, "fffc00"), (5, "ffff80"), (5, "ff"), (5, "fff80000"),
+                (3, "fc"), (3, "f8"), (3, "ffe0"), (4, "7f80"), (5, "7ff800")]
+
+
 def make_jobs(ctx, njobs, prop):
     rng = ctx.rng
     quick = ctx.tier == "quick"
     budget = 1150 * njobs           # frames over all jobs (quick, 120 jobs: 138 000)
     spent = 0
     jobs = []
+    for i, (fi, hx) in enumerate(TAIL_STREAMS):
+        word, bits = FORMATS[fi]
+        j = Job("%s-b%d-tail-%d" % (fmt_name(word, bits), len(hx) // 2, i), word, bits, 8000, {}, "bytes", "bytes", [], read_plan(rng, "bytes", TYS[i % 4], 8 * len(hx)), 0)
+        j.store = hx
+        jobs.append(j)
     k = 0
     own = OWN_KIND[prop]
     while k < njobs:
